@@ -7,6 +7,7 @@ import (
 	"go.opentelemetry.io/otel/metric"
 	"go.opentelemetry.io/otel/metric/embedded"
 	"go.opentelemetry.io/otel/metric/noop"
+	"go.opentelemetry.io/otel/propagation"
 	"go.opentelemetry.io/otel/trace"
 	tnoop "go.opentelemetry.io/otel/trace/noop"
 )
@@ -461,4 +462,99 @@ func HarnessC16Kinds() {
 	o2 := c16MakeObservable(mp.Meter("m2"), k, "p")
 	m.RegisterCallback(cb, o2)
 	vndAssert(sdk.created["p"] == 1 && len(sdk.regInsts) == 2 && c16ObsName(sdk.regInsts[1]) == "p", "instrument-created-after-installation-forwards")
+}
+
+// ---- C16.state: the package-level API (TracerProvider / SetTracerProvider,
+// MeterProvider / SetMeterProvider, TextMapPropagator / SetTextMapPropagator):
+// any sequence of self-assignments (documented no-ops), early use and one real
+// installation; everything obtained before the installation forwards after it
+type c16Prop struct{ injects int }
+
+func (p *c16Prop) Inject(context.Context, propagation.TextMapCarrier) { p.injects++ }
+func (p *c16Prop) Extract(ctx context.Context, _ propagation.TextMapCarrier) context.Context {
+	return ctx
+}
+func (p *c16Prop) Fields() []string { return nil }
+
+func c16ResetState() {
+	globalTracer = defaultTracerValue()
+	globalPropagators = defaultPropagatorsValue()
+	globalMeterProvider = defaultMeterProvider()
+	delegateTraceOnce = sync.Once{}
+	delegateTextMapPropagatorOnce = sync.Once{}
+	delegateMeterOnce = sync.Once{}
+}
+
+func HarnessC16State() {
+	c16ResetState()
+	defer c16ResetState()
+	tsdk, msdk, psdk := &c16TP{}, c16NewSDK(), &c16Prop{}
+	var tracers []trace.Tracer
+	var counters []metric.Int64Counter
+	var props []propagation.TextMapPropagator
+	installedT, installedM, installedP := false, false, false
+	steps := vndParam("STEPS", 4)
+	for s := 0; s < steps; s++ {
+		switch vndChoice(9) {
+		case 0: // obtain a tracer through the API
+			tracers = append(tracers, TracerProvider().Tracer("t"))
+		case 1: // documented no-op
+			SetTracerProvider(TracerProvider())
+		case 2:
+			if installedT {
+				return
+			}
+			SetTracerProvider(tsdk)
+			installedT = true
+		case 3:
+			c, err := MeterProvider().Meter("m").Int64Counter("c")
+			vndAssert(err == nil, "instrument-created")
+			counters = append(counters, c)
+		case 4:
+			SetMeterProvider(MeterProvider())
+		case 5:
+			if installedM {
+				return
+			}
+			SetMeterProvider(msdk)
+			installedM = true
+		case 6:
+			props = append(props, TextMapPropagator())
+		case 7:
+			SetTextMapPropagator(TextMapPropagator())
+		case 8:
+			if installedP {
+				return
+			}
+			SetTextMapPropagator(psdk)
+			installedP = true
+		}
+	}
+	vndReach("sequence-done")
+	if installedT {
+		vndReach("tracer-installed")
+		vndAssert(TracerProvider() == trace.TracerProvider(tsdk), "installed-tracer-provider-is-returned")
+		for _, t := range tracers {
+			before := tsdk.starts
+			t.Start(context.Background(), "s")
+			vndAssert(tsdk.starts == before+1, "spans-started-after-installation-reach-the-sdk")
+		}
+	}
+	if installedM {
+		vndReach("meter-installed")
+		vndAssert(MeterProvider() == metric.MeterProvider(msdk), "installed-meter-provider-is-returned")
+		for _, c := range counters {
+			before := msdk.adds["c"]
+			c.Add(context.Background(), 1)
+			vndAssert(msdk.adds["c"] == before+1, "measurements-after-installation-reach-the-sdk")
+		}
+	}
+	if installedP {
+		vndReach("propagator-installed")
+		for _, p := range props {
+			before := psdk.injects
+			p.Inject(context.Background(), propagation.MapCarrier{})
+			vndAssert(psdk.injects == before+1, "propagator-obtained-earlier-forwards-after-installation")
+		}
+	}
 }
